@@ -64,7 +64,7 @@ def match(pid: str, v: Violation):
             continue
         m = f.get("match", {})
         if all(
-            fnmatch.fnmatchcase(getattr(v, k), str(m.get(k, "*")))
+            any(fnmatch.fnmatchcase(getattr(v, k), alt) for alt in str(m.get(k, "*")).split("|"))
             for k in ("op", "variant", "backend", "kind")
         ):
             return f["id"]
